@@ -60,13 +60,29 @@ impl Out {
 
     /// a complete trace of one backend object
     fn trace(&mut self, scen: &str, ro: bool, be: &MonBackend, meta: String, complete: bool) {
+        let reordered;
+        {
+            // With several threads the backend's own lock order is not the order in which redb made
+            // the calls.  Order calls by the moment they ENTERED the backend and the close by the
+            // moment it RETURNED: a call is "after close" only if it began after close() had returned
+            // (calls overlapping the close get the benefit of the doubt).  Single-threaded: no change.
+            let mut g = be.lock();
+            let cx = g.close_exit_seq;
+            let before: Vec<u64> = g.events.iter().map(|e| e.seq).collect();
+            g.events.sort_by_key(|e| if e.kind == Kind::Close && cx != 0 { cx } else { e.seq });
+            reordered = before != g.events.iter().map(|e| e.seq).collect::<Vec<_>>();
+        }
+        if reordered {
+            *self.markers.entry("trace_with_overlapping_calls_reordered").or_default() += 1;
+        }
         let g = be.lock();
         let id = format!("{}#{}", scen, self.n_traces);
         let line = trace_line(&id, ro, g.len0, &g.events);
         let (c, p) = rust_monitor(ro, g.len0, &g.events);
         // cross-check the backend's own counters with the event list
         let own_ok = g.closes == 1 && g.calls_after_close == 0 && g.oob.is_empty();
-        if complete && own_ok != c {
+        // (the backend's counters follow its lock order, so they are comparable only if no calls overlapped)
+        if complete && !reordered && own_ok != c {
             self.anomalies.push(format!("{id}: backend counters (closes={}, after_close={}, oob={}) disagree with the event monitor {c}", g.closes, g.calls_after_close, g.oob.len()));
         }
         let h = fnv(&line[line.find(' ').map(|i| i + 1 + id.len()).unwrap_or(0)..]);
@@ -833,6 +849,122 @@ fn faulted_histories(rng: &mut Rng, seed: u64, out: &mut Out, n: usize, ops: usi
     }
 }
 
+/// F-C20-2 made deterministic with the H4 pause point `CB.read.checked`: a reader thread is held
+/// between the latch check and the backend call of CheckedBackend::read while the Database is dropped.
+struct ReadGate {
+    thread: std::sync::Mutex<Option<std::thread::ThreadId>>,
+    state: std::sync::Mutex<(bool, bool)>, // (reader reached the point, released)
+    cv: std::sync::Condvar,
+}
+
+impl redb::verif::PauseController for ReadGate {
+    fn at(&self, point: &'static str) {
+        if point != "CB.read.checked" {
+            return;
+        }
+        if *self.thread.lock().unwrap() != Some(std::thread::current().id()) {
+            return;
+        }
+        let mut g = self.state.lock().unwrap();
+        if g.0 {
+            return; // only the first read of the designated thread is held
+        }
+        g.0 = true;
+        self.cv.notify_all();
+        while !g.1 {
+            g = self.cv.wait(g).unwrap();
+        }
+    }
+}
+
+fn read_paused_across_close(out: &mut Out) {
+    let cfg = Config { page_size: 512, region_size: 512 * 64, cache_size: 0 };
+    let be = MonBackend::new(vec![]);
+    let Ok(db) = open_with(&cfg, &be, None) else { return };
+    for k in 0..40u64 {
+        let _ = small_txn(&db, k, true);
+    }
+    let Ok(rt) = db.begin_read() else { return };
+    let gate = std::sync::Arc::new(ReadGate {
+        thread: std::sync::Mutex::new(None),
+        state: std::sync::Mutex::new((false, false)),
+        cv: std::sync::Condvar::new(),
+    });
+    redb::verif::set_pause_controller(Some(gate.clone()));
+    let g2 = gate.clone();
+    let t = std::thread::spawn(move || {
+        *g2.thread.lock().unwrap() = Some(std::thread::current().id());
+        let r = catch(|| {
+            if let Ok(tab) = rt.open_table(tdef(0)) {
+                for k in 0..40u64 {
+                    if tab.get(&k).is_err() {
+                        break;
+                    }
+                }
+            }
+        });
+        // if the reader never reached the point, do not leave the main thread waiting
+        let mut g = g2.state.lock().unwrap();
+        g.0 = true;
+        g2.cv.notify_all();
+        drop(g);
+        let _ = catch(move || drop(rt));
+        r.is_ok()
+    });
+    {
+        let mut g = gate.state.lock().unwrap();
+        while !g.0 {
+            g = gate.cv.wait(g).unwrap();
+        }
+    }
+    // the reader is (at most) one step before backend.read(); close the database under it
+    let _ = catch(move || drop(db));
+    {
+        let mut g = gate.state.lock().unwrap();
+        g.1 = true;
+        gate.cv.notify_all();
+    }
+    let _ = t.join();
+    redb::verif::set_pause_controller(None);
+    out.trace("read-paused-across-close", false, &be, "\"threads\":2,\"pause_point\":\"CB.read.checked\"".to_string(), true);
+}
+
+/// the same race without forcing it: reader threads spin on uncached reads while the Database is dropped
+fn reads_racing_close(rng: &mut Rng, out: &mut Out, trials: usize) {
+    for n in 0..trials {
+        let cfg = Config { page_size: 512, region_size: 512 * 64, cache_size: 0 };
+        let be = MonBackend::new(vec![]);
+        let Ok(db) = open_with(&cfg, &be, None) else { continue };
+        for k in 0..30u64 {
+            let _ = small_txn(&db, k, true);
+        }
+        let mut hs = vec![];
+        for i in 0..6u64 {
+            let Ok(rt) = db.begin_read() else { continue };
+            hs.push(std::thread::spawn(move || {
+                let _ = catch(|| {
+                    if let Ok(tab) = rt.open_table(tdef(0)) {
+                        let mut n = 0u64;
+                        while n < 20_000 {
+                            if tab.get(&((n * 7 + i) % 30)).is_err() {
+                                break;
+                            }
+                            n += 1;
+                        }
+                    }
+                });
+                let _ = catch(move || drop(rt));
+            }));
+        }
+        std::thread::sleep(std::time::Duration::from_micros(200 + rng.below(800)));
+        let _ = catch(move || drop(db));
+        for h in hs {
+            let _ = h.join();
+        }
+        out.trace("reads-racing-close", false, &be, format!("\"n\":{n},\"reader_threads\":6"), true);
+    }
+}
+
 fn main() {
     silence_panics();
     let seed = seed_from_env();
@@ -858,6 +990,9 @@ fn main() {
     drop_orders(&mut drng, &mut out, n_drop);
     let mut frng = rng.fork(4);
     faulted_histories(&mut frng, seed, &mut out, n_fault, n_ops);
+    read_paused_across_close(&mut out);
+    let mut rrng = rng.fork(5);
+    reads_racing_close(&mut rrng, &mut out, if thorough { 120 } else { 12 });
 
     let mut f = std::fs::File::create("cases.txt").unwrap();
     for l in &out.cases {
